@@ -776,7 +776,13 @@ static int aaf_talker_recv_pdu(int fd_sk, int fd_timer)
     /* Arm the timer for the first time to start sending AAF stream. */
     if (first_aaf_pdu) {
         struct itimerspec itspec = { 0 };
-        uint64_t ts = mclk_dequeue_ts();
+        uint64_t ts;
+
+        /* Nothing to start from until a valid CRF pdu has been received. */
+        if (STAILQ_EMPTY(&mclk_timestamps))
+            return 0;
+
+        ts = mclk_dequeue_ts();
 
         first_aaf_pdu = false;
 
